@@ -124,6 +124,8 @@ struct Outcome {
     n_tokens: usize,
     n_offsets: usize,
     empty_slices: usize,
+    /// The decoded text when the round trip failed.
+    decoded: Option<String>,
     failure: Option<(String, String)>,
 }
 
@@ -141,6 +143,7 @@ fn check(tok: &Tokenizer, text: &str) -> Result<Outcome, String> {
         }
         Ok(d) if d != text => {
             o.failure = fail("roundtrip", format!("decode(encode(t).token_ids()) = {:?}, ids {:?}", clip(&d), clip_ids(&ids)));
+            o.decoded = Some(d);
             return Ok(o);
         }
         Ok(_) => {}
@@ -324,6 +327,14 @@ fn shrink(case: &Case, kind: &str) -> Case {
     cur
 }
 
+fn has_bytelevel_noregex(pre: &Json) -> bool {
+    match pre["t"].as_str() {
+        Some("bytelevel") => pre["use_regex"] == false,
+        Some("seq") => pre["items"].as_array().map(|a| a.iter().any(has_bytelevel_noregex)).unwrap_or(false),
+        _ => false,
+    }
+}
+
 fn text_classes(text: &str) -> Vec<&'static str> {
     let mut v = Vec::new();
     let mut add = |s: &'static str| {
@@ -385,6 +396,25 @@ fn run_text(rep: &mut Report, tok: &Tokenizer, cfg: &Json, text: &str) {
             }
             if let Some((kind, detail)) = &o.failure {
                 rep.count(&format!("failures_raw:{}", kind));
+                // Known mechanism (pinned witness: ByteLevel(use_regex=false)
+                // on "\n"): the loader's `.*` split drops every "\n". A
+                // round-trip failure that is exactly that - a ByteLevel
+                // pre-tokenizer without regex is configured and the decoded
+                // text is the input minus its "\n" characters - is folded
+                // into the pinned signature when the pinned witness fired.
+                let is_pinned = text == "\n" && cfg["pre"]["t"] == "bytelevel" && cfg_merges(cfg).is_empty();
+                if kind == "roundtrip"
+                    && !is_pinned
+                    && rep.counters.contains_key("pinned_newline_witness_fired")
+                    && has_bytelevel_noregex(&cfg["pre"])
+                    && o.decoded.as_deref() == Some(text.replace('\n', "").as_str())
+                {
+                    rep.count("folded_into_pinned_signature:bytelevel_noregex_drops_newlines");
+                    return;
+                }
+                if is_pinned && kind == "roundtrip" && !rep.counters.contains_key("pinned_newline_witness_fired") {
+                    rep.count("pinned_newline_witness_fired");
+                }
                 // Bounded work: one violation per signature is kept anyway.
                 let done = *rep.counters.get("failures_shrunk").unwrap_or(&0);
                 if done >= 60 || rep.n_violations() >= rep.max_violations {
@@ -455,14 +485,14 @@ pub fn run(args: &Args) {
     }
 
     // ---- pinned cases: every pre-tokenizer family on a fixed set of texts.
-    let pinned_texts = ["", "a", "\n", "a\nb", "the cat", " the  cat\n\nis in the bed ", "é", "e\u{0301}", "😀", "中文", "שלום", "<|endoftext|>", "it's 123"];
+    let pinned_texts = ["\n", "", "a", "a\nb", "the cat", " the  cat\n\nis in the bed ", "é", "e\u{0301}", "😀", "中文", "שלום", "<|endoftext|>", "it's 123"];
     let pinned_merges = train_bpe(&corpus_words(" the cat is in the bed that they're then there"), 12);
     for pre in [
+        json!({"t": "bytelevel", "use_regex": false}),
         Json::Null,
         json!({"t": "gpt2"}),
         json!({"t": "digits", "individual": true}),
         json!({"t": "bytelevel", "use_regex": true}),
-        json!({"t": "bytelevel", "use_regex": false}),
         json!({"t": "split", "pattern": r"\s+", "invert": false, "isolate": true}),
     ] {
         for merges in [vec![], pinned_merges.clone()] {
